@@ -30,7 +30,7 @@ pub fn render_cc(c: &ConcCase, r: &RunResult) -> String {
     .iter()
     .enumerate()
     .map(|(i, t)| {
-      let case = Case { root: Node::Src(0, Src::Empty), hots: vec![], hot_illformed: false, recorders: vec![], actions: t.clone() };
+      let case = Case { root: Node::Src(0, Src::Empty), hots: vec![], hot_illformed: false, conn: None, recorders: vec![], actions: t.clone() };
       let s = case.show();
       format!("T{}[{}]", i + 1, s.split(" | ").nth(2).unwrap_or("").trim())
     })
@@ -101,7 +101,7 @@ pub struct C11Case {
   pub take: Option<usize>,
 }
 
-fn c11_strategy(_ctx: &Ctx) -> BoxedStrategy<C11Case> {
+pub fn c11_strategy(_ctx: &Ctx) -> BoxedStrategy<C11Case> {
   let shape = prop::sample::select(vec!["merge", "zip", "amb", "concat", "flat_map", "merge_cold", "zip_cold"]);
   (shape, 2usize..=3, prop::collection::vec(1usize..=4, 3), prop::option::weighted(0.4, 1usize..=4), sched_strategy())
     .prop_map(|(shape, k, lens, take, sched)| {
@@ -144,7 +144,7 @@ fn c11_strategy(_ctx: &Ctx) -> BoxedStrategy<C11Case> {
         root = Node::Un(Op::Take(n), Box::new(root));
       }
       root.renumber();
-      let case = Case { root, hots, hot_illformed: false, recorders: vec![vec![]], actions: vec![Action::Subscribe(0)] };
+      let case = Case { root, hots, hot_illformed: false, conn: None, recorders: vec![vec![]], actions: vec![Action::Subscribe(0)] };
       C11Case { cc: ConcCase { case, threads, sched }, shape: shape.to_string(), scripts: out_items, take }
     })
     .boxed()
@@ -259,7 +259,7 @@ pub struct C19Case {
   pub shape: String,
 }
 
-fn c19_strategy(_ctx: &Ctx) -> BoxedStrategy<C19Case> {
+pub fn c19_strategy(_ctx: &Ctx) -> BoxedStrategy<C19Case> {
   let shape = prop::sample::select(vec![
     "merge", "zip", "amb", "flat_map", "take_until", "skip_until", "sample", "subject", "behavior", "replay", "async",
   ]);
@@ -330,7 +330,7 @@ fn c19_strategy(_ctx: &Ctx) -> BoxedStrategy<C19Case> {
           t.push(Action::Advance(0));
         }
       }
-      let case = Case { root, hots, hot_illformed: false, recorders: vec![vec![]], actions: vec![Action::Subscribe(0)] };
+      let case = Case { root, hots, hot_illformed: false, conn: None, recorders: vec![vec![]], actions: vec![Action::Subscribe(0)] };
       C19Case { cc: ConcCase { case, threads, sched }, shape: shape.to_string() }
     })
     .boxed()
@@ -405,7 +405,7 @@ pub struct C12Case {
   pub kind: String,
 }
 
-fn c12_strategy(ctx: &Ctx) -> BoxedStrategy<C12Case> {
+pub fn c12_strategy(ctx: &Ctx) -> BoxedStrategy<C12Case> {
   let (late_behavior_ok, late_replay_ok) = (!ctx.excl("no_late_behavior_subscriber"), !ctx.excl("no_late_replay_subscriber"));
   let kinds = prop::sample::select(vec![HotKind::Subject, HotKind::Behavior(-1), HotKind::Replay]);
   (kinds, 1usize..=2, prop::collection::vec(1usize..=4, 2), any::<bool>(), any::<bool>(), 0usize..=4, sched_strategy())
@@ -438,7 +438,7 @@ fn c12_strategy(ctx: &Ctx) -> BoxedStrategy<C12Case> {
       let case = Case {
         root,
         hots: vec![kind.clone()],
-        hot_illformed: false,
+        hot_illformed: false, conn: None,
         recorders: vec![vec![], vec![], vec![]],
         actions: pre_actions,
       };
@@ -605,7 +605,7 @@ fn id_ops() -> BoxedStrategy<Op> {
   .boxed()
 }
 
-fn c09_strategy(_ctx: &Ctx, for_c05: bool) -> BoxedStrategy<C09Case> {
+pub fn c09_strategy(_ctx: &Ctx, for_c05: bool) -> BoxedStrategy<C09Case> {
   let pre = prop::collection::vec(id_ops(), 0..=2);
   let post = prop::collection::vec(id_ops(), 0..=2);
   let sched_ops = prop_oneof![
@@ -655,7 +655,7 @@ fn c09_strategy(_ctx: &Ctx, for_c05: bool) -> BoxedStrategy<C09Case> {
       let case = Case {
         root,
         hots: if hot { vec![HotKind::Harness] } else { vec![] },
-        hot_illformed: false,
+        hot_illformed: false, conn: None,
         recorders: vec![vec![]],
         actions: vec![Action::Subscribe(0)],
       };
@@ -794,7 +794,7 @@ pub struct C05Case {
   pub cc: ConcCase,
 }
 
-fn c05_plain_strategy(_ctx: &Ctx) -> BoxedStrategy<C05Case> {
+pub fn c05_plain_strategy(_ctx: &Ctx) -> BoxedStrategy<C05Case> {
   let kinds = prop::sample::select(vec![HotKind::Harness, HotKind::Subject, HotKind::Behavior(-1), HotKind::Replay]);
   let shape = prop::sample::select(vec!["chain", "merge", "zip", "flat_map", "take_until"]);
   (kinds, shape, prop::collection::vec(id_ops(), 0..=3), 1usize..=4, 1usize..=3, 0u8..=3, sched_strategy())
@@ -825,7 +825,7 @@ fn c05_plain_strategy(_ctx: &Ctx) -> BoxedStrategy<C05Case> {
       t.push(Action::Unsub(0));
       threads.push(t);
       let hots = if two { vec![kind, HotKind::Harness] } else { vec![kind] };
-      let case = Case { root, hots, hot_illformed: false, recorders: vec![vec![]], actions: vec![Action::Subscribe(0)] };
+      let case = Case { root, hots, hot_illformed: false, conn: None, recorders: vec![vec![]], actions: vec![Action::Subscribe(0)] };
       C05Case { cc: ConcCase { case, threads, sched } }
     })
     .boxed()
